@@ -318,6 +318,8 @@ macro_rules! define_lagrange { ($name:ident, $n0:ident, $n1:ident, $n2:ident, $n
 
         // First algorithm loop, to shrink values enough to fit in type $n2.
         loop {
+            #[cfg(crrl_verif)]
+            crate::verif::tick();
             // If u is smaller than v, then swap u and v.
             if nu.lt(&nv) {
                 u0.swap(&mut v0);
@@ -378,6 +380,8 @@ macro_rules! define_lagrange { ($name:ident, $n0:ident, $n1:ident, $n2:ident, $n
 
         // Second algorithm loop, once values have shrunk enough to fit in $n2.
         loop {
+            #[cfg(crrl_verif)]
+            crate::verif::tick();
             // If u is smaller than v, then swap u and v.
             if nu.lt(&nv) {
                 u0.swap(&mut v0);
@@ -592,6 +596,8 @@ macro_rules! define_lagrange_spec { ($name:ident, $n0:ident, $n1:ident, $n3:iden
 
         // Algorithm loop.
         loop {
+            #[cfg(crrl_verif)]
+            crate::verif::tick();
             // If u is smaller than v, then swap u and v.
             if nu.lt(&nv) {
                 u1.swap(&mut v1);
@@ -690,6 +696,8 @@ pub fn lagrange128_basisconv_vartime(a: &[u64; 2], b: &[u64; 2])
 
     // Algorithm loop.
     loop {
+        #[cfg(crrl_verif)]
+        crate::verif::tick();
         // If u is smaller than v, then swap u and v.
         if nu.lt(&nv) {
             (e0, e1, f0, f1) = (f0, f1, e0, e1);
